@@ -25,6 +25,10 @@ class MIRP:
             cargo_size: float,
             time_horizon: float
         ):
+        if not cargo_size > 0:
+            # Visits are generated one cargo at a time until a window ends after
+            # the horizon; with a cargo that is not positive that never happens
+            raise ValueError(f"cargo_size must be positive, got {cargo_size}")
         self.cargo_size = cargo_size
         self.time_horizon = time_horizon
         self.supply_ports = []
